@@ -431,6 +431,20 @@ func TestCacheHistory(t *testing.T) {
 				p := v2.Vec{X: cc.X + g.F(-1, 1).Draw(t, "x")*h.X, Y: cc.Y + g.F(-1, 1).Draw(t, "y")*h.Y}
 				hist = append(hist, p)
 			},
+			// points a zero-valued field of the cache would stand for: the origin, points on an axis, -0
+			"zero-coordinates": func(t *rapid.T) {
+				cc, h := bb.Center(), bb.Size()
+				p := v2.Vec{}
+				switch rapid.IntRange(0, 3).Draw(t, "which") {
+				case 1:
+					p.X = cc.X + g.F(-1, 1).Draw(t, "x")*h.X
+				case 2:
+					p.Y = cc.Y + g.F(-1, 1).Draw(t, "y")*h.Y
+				case 3:
+					p = v2.Vec{X: math.Copysign(0, -1), Y: 0}
+				}
+				hist = append(hist, p)
+			},
 			"repeat": func(t *rapid.T) {
 				if len(hist) == 0 {
 					t.Skip("empty history")
